@@ -5,7 +5,7 @@ from fractions import Fraction
 from ..core import rule
 from ..index import AnalysisError, dotted, src, walk_no_nested, names_in
 from ..domains import linform, Lin, rounding, check_pred
-from ..util import calls_named, arg, reach_expr, pred_is
+from ..util import calls_named, arg, reach_expr, pred_is, reach_conds
 from .slots import COUNTTABLE, BINNING, P
 
 SPLITDOUBLE = P + 'bamProcessing/split_double_BAM.py'
@@ -164,9 +164,24 @@ def r3(ctx):
                        'and keepOverBounds is off; the coordinate binned is the read\'s own bin-tag value; sliding defaults to the bin size')
 def r4(ctx):
     f = ctx.fn(COUNTTABLE, 'assignReads')
-    loops = [l for l in walk_no_nested(f) if isinstance(l, ast.For) and isinstance(l.iter, ast.Call) and (dotted(l.iter.func) or '').endswith('coordinate_to_bins')]
-    ctx.need('C10-R4', len(loops), 1, 'loops over coordinate_to_bins in assignReads')
-    for l in loops:
+    pairs = [(l, l.iter) for l in walk_no_nested(f) if isinstance(l, ast.For) and isinstance(l.iter, ast.Call) and (dotted(l.iter.func) or '').endswith('coordinate_to_bins')]
+    # the window list may be bound to a local first: `bins = coordinate_to_bins(...); for start, end in bins:`
+    for l_ in walk_no_nested(f):
+        if isinstance(l_, ast.For) and isinstance(l_.iter, ast.Name):
+            defs = [s_ for s_ in walk_no_nested(f) if isinstance(s_, ast.Assign) and len(s_.targets) == 1 and src(s_.targets[0]) == l_.iter.id]
+            if len(defs) == 1 and isinstance(defs[0].value, ast.Call) and (dotted(defs[0].value.func) or '').endswith('coordinate_to_bins'):
+                pairs.append((l_, defs[0].value))
+    ctx.need('C10-R4', len(pairs), 1, 'loops over coordinate_to_bins in assignReads')
+    for l, bins_call in pairs:
+        if isinstance(l.iter, ast.Name):
+            nm_ = l.iter.id
+            touched = [x for x in walk_no_nested(f) if (isinstance(x, ast.Call) and isinstance(x.func, ast.Attribute) and isinstance(x.func.value, ast.Name) and x.func.value.id == nm_
+                                                        and x.func.attr in ('pop', 'remove', 'append', 'insert', 'extend', 'sort', 'reverse', 'clear'))
+                       or (isinstance(x, ast.Delete) and any(isinstance(t_, ast.Subscript) and src(t_.value) == nm_ for t_ in x.targets))]
+            if touched:
+                ctx.emit('C10-R4', False, COUNTTABLE, touched[0], f'the window list `{nm_}` is edited in place before it is iterated (`{src(touched[0])[:40]}`): the acceptance of a window is not a per-window test',
+                         key='bounds-predicate', undecided=True)
+                continue
         if not (isinstance(l.target, ast.Tuple) and len(l.target.elts) == 2):
             raise AnalysisError('bin loop target is not (start, end)')
         st, en = [e.id for e in l.target.elts]
@@ -204,7 +219,7 @@ def r4(ctx):
                  key='bounds-predicate', witness=bad[0] if bad else None)
         ctx.exhaustive['C10-R4'] = True
         # arguments of coordinate_to_bins
-        a = l.iter.args
+        a = bins_call.args
         ok = len(a) == 3 and src(a[1]) == 'args.bin' and src(a[2]) == 'args.sliding' and isinstance(a[0], ast.Call) and dotted(a[0].func) == 'int'
         valname = src(a[0].args[0]) if ok else None
         # follow the local back (through further locals / a None sentinel) to the bin-tag value of the record's own features
@@ -249,6 +264,102 @@ def r5(ctx):
     from . import C11
     from ..core import include
     include(ctx, C11, [C11.r6], 'C10-R5')
+
+
+@rule('C10', 'C10-R6', 'the inputs of the window arithmetic are the right ones: contig lengths come from the header of the file being counted, every '
+                       'split feature state keeps all its tags (the bin tag included), and the result of a cached window function is never edited in place')
+def r6(ctx):
+    g = ctx.fn(COUNTTABLE, 'create_count_table')
+    # (a) contig lengths per file
+    stores = [s_ for s_ in walk_no_nested(g) if isinstance(s_, ast.Assign) and any(src(t_) == 'args.ref_lengths' for t_ in s_.targets)]
+    floops = [l for l in walk_no_nested(g) if isinstance(l, ast.For) and 'alignmentfiles' in src(l.iter) and any(isinstance(c, ast.Call) and (dotted(c.func) or '').endswith('assignReads') for c in walk_no_nested(l))]
+    ok = bool(stores) and len(floops) == 1
+    why = 'args.ref_lengths is never set' if not stores else 'loop over the alignment files that calls assignReads not found'
+    if ok:
+        fl = floops[0]
+        fv = fl.target.id if isinstance(fl.target, ast.Name) else None
+        handles = {it.optional_vars.id for w_ in walk_no_nested(fl) if isinstance(w_, ast.With) for it in w_.items
+                   if isinstance(it.optional_vars, ast.Name) and fv and fv in names_in(it.context_expr)}
+        for s_ in stores:
+            inside = any(x is s_ for x in walk_no_nested(fl))
+            deps = set(names_in(s_.value))
+            for _ in range(3):
+                for d_ in walk_no_nested(fl):
+                    if isinstance(d_, ast.Assign) and len(d_.targets) == 1 and isinstance(d_.targets[0], ast.Name) and d_.targets[0].id in deps:
+                        deps |= names_in(d_.value)
+            if not inside:
+                ok, why = False, 'the contig lengths are read once, outside the loop over the alignment files: every later file is checked against the first file\'s contigs'
+            elif not (deps & handles):
+                ok, why = False, f'the contig lengths stored per file do not come from the handle of that file ({sorted(handles)})'
+        if ok:
+            why = f'contig lengths are re-read from the header of each file ({sorted(handles)}) inside the file loop'
+    ctx.emit('C10-R6', ok, COUNTTABLE, stores[0] if stores else g, why, key='ref-lengths-per-file', what='create_count_table: contig lengths of the first file are used for all files')
+    # (b) split feature states keep every tag
+    f = ctx.fn(COUNTTABLE, 'assignReads')
+    sloops = [l for l in walk_no_nested(f) if isinstance(l, ast.For) and 'product' in src(l.iter)]
+    if len(sloops) != 1:
+        ctx.emit('C10-R6', False, COUNTTABLE, f, 'loop over the split feature states not found', key='split-state-features', undecided=True)
+    else:
+        sl = sloops[0]
+        state = sl.target.id if isinstance(sl.target, ast.Name) else None
+        recs = [d for d in walk_no_nested(sl) if isinstance(d, ast.Dict) and any(isinstance(k, ast.Constant) and k.value == 'features' for k in d.keys)]
+        ok, why = bool(recs) and bool(state), 'record of a split state not found'
+        for d in recs:
+            fv_ = d.values[[k.value if isinstance(k, ast.Constant) else None for k in d.keys].index('features')]
+            defs = [s_ for s_ in walk_no_nested(sl) if isinstance(s_, ast.Assign) and len(s_.targets) == 1 and src(s_.targets[0]) == src(fv_)] if isinstance(fv_, ast.Name) else []
+            val = defs[-1].value if defs else fv_
+            if isinstance(val, ast.DictComp):
+                g_ = val.generators[0]
+                full = len(val.generators) == 1 and not g_.ifs and state in names_in(g_.iter) and 'featureTags' in names_in(g_.iter)
+                ok, why = ok and full, ('features of a split state = ' + src(val)[:70]) if full else f'the features of a split state are filtered: `{src(val)[:90]}`'
+            elif isinstance(val, ast.Call) and dotted(val.func) == 'dict' and len(val.args) == 1 and not val.keywords and isinstance(val.args[0], ast.Call) and dotted(val.args[0].func) == 'zip' \
+                    and state in names_in(val.args[0]) and 'featureTags' in names_in(val.args[0]):
+                why = 'features of a split state = ' + src(val)[:70]
+            elif isinstance(val, ast.Dict) and not val.keys and isinstance(fv_, ast.Name):
+                # filled item by item in a loop: no tag may be skipped
+                fills = [s_ for s_ in walk_no_nested(sl) if isinstance(s_, ast.Assign) and len(s_.targets) == 1 and isinstance(s_.targets[0], ast.Subscript) and src(s_.targets[0].value) == fv_.id]
+                inner = [l_ for l_ in walk_no_nested(sl) if isinstance(l_, ast.For) and l_ is not sl and any(x is fl_ for fl_ in fills for x in walk_no_nested(l_))]
+                conds = [c_ for l_ in inner for fl_ in fills for c_ in (reach_conds(l_.body, fl_) or [])]
+                full = bool(fills) and bool(inner) and not conds and all(state in names_in(l_.iter) and 'featureTags' in names_in(l_.iter) for l_ in inner)
+                ok, why = ok and full, 'features of a split state are filled for every tag' if full else \
+                    f'a tag is left out of the features of a split state under `{src(conds[0][0]) if conds else "?"}`: the binning step finds no bin-tag value for split states'
+            else:
+                ok, why = False, f'features of a split state `{src(val)[:60]}` not understood'
+        ctx.emit('C10-R6', ok, COUNTTABLE, recs[0] if recs else sl, why, key='split-state-features', undecided=(not ok and 'not understood' in why),
+                 what='assignReads: split feature states lose a tag (the bin tag) from their features')
+    # (c) ownership: a cached function hands out the same list object again
+    from ..util import last_name
+    for relpath in (COUNTTABLE, BINNING):
+        for fn_name in ('coordinate_to_bins', 'coordinate_to_sliding_bin_locations'):
+            if not ctx.ix.has_func(relpath, fn_name):
+                continue
+            fd = ctx.fn(relpath, fn_name)
+            cached = [d for d in fd.decorator_list if last_name(dotted(d.func if isinstance(d, ast.Call) else d) or '') in ('lru_cache', 'cache', 'cached', 'memoize', 'memoized')]
+            if not cached:
+                ctx.emit('C10-R6', True, relpath, fd, f'{fn_name} builds a fresh result per call (not cached)', key=f'fresh-result:{relpath}:{fn_name}', nontrivial=False)
+                continue
+            bad = []
+            for rp in ctx.ix.pyfiles():
+                try:
+                    if fn_name not in ctx.ix.read(rp):
+                        continue
+                except AnalysisError:
+                    continue
+                m = ctx.ix.module(rp)
+                for fdef in [x for x in ast.walk(m.tree) if isinstance(x, (ast.FunctionDef, ast.AsyncFunctionDef))]:
+                    for s_ in walk_no_nested(fdef):
+                        if isinstance(s_, ast.Assign) and len(s_.targets) == 1 and isinstance(s_.targets[0], ast.Name) and isinstance(s_.value, ast.Call) and (dotted(s_.value.func) or '').endswith(fn_name):
+                            nm_ = s_.targets[0].id
+                            for x in walk_no_nested(fdef):
+                                if (isinstance(x, ast.Call) and isinstance(x.func, ast.Attribute) and isinstance(x.func.value, ast.Name) and x.func.value.id == nm_
+                                        and x.func.attr in ('pop', 'remove', 'append', 'insert', 'extend', 'sort', 'reverse', 'clear')) or \
+                                   (isinstance(x, ast.Delete) and any(isinstance(t_, ast.Subscript) and src(t_.value) == nm_ for t_ in x.targets)) or \
+                                   (isinstance(x, (ast.Assign, ast.AugAssign)) and any(isinstance(t_, ast.Subscript) and src(t_.value) == nm_ for t_ in (x.targets if isinstance(x, ast.Assign) else [x.target]))):
+                                    bad.append((rp, x))
+            ctx.emit('C10-R6', not bad, bad[0][0] if bad else relpath, bad[0][1] if bad else fd,
+                     f'{fn_name} is cached ({src(cached[0])[:40]}) and no caller edits the returned list' if not bad else
+                     f'{fn_name} is cached ({src(cached[0])[:40]}) but its result is edited in place (`{src(bad[0][1])[:40]}`): the edit persists for every later call with the same arguments',
+                     key=f'fresh-result:{relpath}:{fn_name}', what=f'result of the cached {fn_name} is mutated by a caller')
 
 
 META = {
